@@ -785,6 +785,10 @@ def _p_len(ip, args, kwargs, st, line, node):
         bl, bh = bytes_len(v, st)
         if bl == bh and bl != INF and all(p[0] in ('fix', 'lit') for p in v.parts):
             return [('val', Const(int(bl)), st)]
+        # the parts of known size bound the length from below (a literal first octet => len >= 1)
+        known = sum(len(p[1]) if p[0] == 'lit' else (p[1] if p[0] == 'fix' else 0) for p in v.parts)
+        if known > 0:
+            return [('val', mk_sym(st, name, known, INF, ('len', [v])), st)]
     if isinstance(v, SliceV):
         lo = v.lo.value if isinstance(v.lo, Const) else None
         lo = 0 if (isinstance(v.lo, Const) and v.lo.value is None) else lo
